@@ -550,6 +550,10 @@ impl Predictor {
             .as_ref()
             .expect("this predictor is created with predict_tags = false");
 
+        sentence.tag_scores.clear();
+        if self.tag_scores {
+            sentence.tag_scores.resize(sentence.len(), None);
+        }
         if self.data.n_tags == 0 {
             return;
         }
@@ -560,10 +564,6 @@ impl Predictor {
         sentence
             .tags
             .resize(sentence.len() * self.data.n_tags, None);
-        sentence.tag_scores.clear();
-        if self.tag_scores {
-            sentence.tag_scores.resize(sentence.len(), None);
-        }
         for (i, &b) in sentence.boundaries.iter().enumerate() {
             if b == CharacterBoundary::Unknown {
                 range_start.take();
